@@ -130,7 +130,7 @@ PROPS = {
                      "Vec::contains is membership, derive(Clone) gives an equal value; fn pointers defunctionalised (R12)"],
     ),
     "C12": dict(
-        units=["oplog"],
+        units=["oplog", "rotation"],
         kani=[K_CODEC],
         undecided=["rotation: Oplog::get_log_file_append_mode / remove_old_db_files (rename, directory listing, creation times) - 'rotation keeps the newest records and never drops a "
                    "record within the configured size' is NOT decided by contract (Oplog::try_write_op_log IS verified to leave the accepted record as the last record of the live "
@@ -274,8 +274,8 @@ PROPS = {
         assumptions=["Change::new stamps the resolving change with the wall clock (any u64)"],
     ),
     "C10": dict(
-        units=["store", "consensus", "security", "ids", "oplog", "pending", "parser", "sessions", "http", "election", "snapshot", "sync", "listing", "permissions", "replies", "oplogflag", "members", "delivery", "outbox", "driver"],
-        reachable={"driver": ["Databases::add_db_to_snapshot_by_name", "snapshot_db_by_name", "snapshot_all_pendding_dbs"], "delivery": ["Database::notify_watchers", "Database::send_message_to_arbiter_client", "Database::remove_value"], "outbox": ["process_request", "replicate_change", "replicate_request", "get_replicate_message", "get_replicate_remove_message", "get_replicate_increment_message", "get_resolve_message"], "members": ["Databases::add_cluster_member", "Databases::promote_member", "Databases::remove_cluster_member"], "oplogflag": ["invalidate_oplog", "mark_op_log_as_valid", "snapshot_keys", "generate_key_id", "arm_replicate_set", "arm_replicate_increment", "arm_replicate_remove"], "replies": ["get_key_value", "get_key_value_safe", "arm_get", "arm_get_safe", "arm_keys"], "permissions": ["Permission::from", "Permission::permissions_from_str", "From<char>@PermissionKind::from", "has_permission"], "listing": ["Database::list_keys", "filter_system_keys", "get_function_by_pattern", "starts_with", "ends_with", "contains", "Database::list_conflicts_keys",
+        units=["store", "consensus", "security", "ids", "oplog", "pending", "parser", "sessions", "http", "election", "snapshot", "sync", "listing", "permissions", "replies", "oplogflag", "members", "delivery", "outbox", "driver", "rotation"],
+        reachable={"rotation": ["remove_old_db_files"], "driver": ["Databases::add_db_to_snapshot_by_name", "snapshot_db_by_name", "snapshot_all_pendding_dbs"], "delivery": ["Database::notify_watchers", "Database::send_message_to_arbiter_client", "Database::remove_value"], "outbox": ["process_request", "replicate_change", "replicate_request", "get_replicate_message", "get_replicate_remove_message", "get_replicate_increment_message", "get_resolve_message"], "members": ["Databases::add_cluster_member", "Databases::promote_member", "Databases::remove_cluster_member"], "oplogflag": ["invalidate_oplog", "mark_op_log_as_valid", "snapshot_keys", "generate_key_id", "arm_replicate_set", "arm_replicate_increment", "arm_replicate_remove"], "replies": ["get_key_value", "get_key_value_safe", "arm_get", "arm_get_safe", "arm_keys"], "permissions": ["Permission::from", "Permission::permissions_from_str", "From<char>@PermissionKind::from", "has_permission"], "listing": ["Database::list_keys", "filter_system_keys", "get_function_by_pattern", "starts_with", "ends_with", "contains", "Database::list_conflicts_keys",
                                "Database::has_pendding_conflict", "Database::register_arbiter"], "sync": ["make_create_db_command", "get_full_sync_opps", "get_pendding_opps_since"], "snapshot": ["get_keys_to_update", "write_metadata_file", "load_db_metadata_from_disk_or_empty", "ConsensuStrategy::to_le_bytes", "From<i32>@ConsensuStrategy::from", "NodeDrive::storage_data_disk", "write_value", "write_key", "update_key", "write_new_key_value", "get_key_disk_size", "create_db_from_file_name", "ValueStatus::to_le_bytes"], "http": ["process_commands"], "election": ["op_set_primary", "op_set_scoundary", "election_eval", "start_election", "start_new_election", "election_win", "Databases::get_role", "Databases::is_eligible", "Databases::is_primary", "From<usize>@ClusterRole::from"], "store": STORE_FNS, "security": SECURITY_FNS, "pending": ["ReplicationMessage::new", "ReplicationMessage::ack", "ReplicationMessage::replicated", "ReplicationMessage::is_full_acknowledged",
                    "ReplicationMessage::count_replication", "ReplicationMessage::count_acknowledged", "ReplicationMessage::get_copy", "Databases::register_pending_opp",
                    "Databases::acknowledge_pending_opp", "Databases::get_pending_opp_copy", "replicate_message_to_all", "replicate_message_to_secoundary", "op_acknowledge"],
